@@ -67,7 +67,8 @@ inline Json genAniso(Rng &r, int d, const std::string &type, double p_some = 0.4
     Json a = Json::array();
     if (!r.chance(p_some)) return a;
     for (int k = 0; k < d; k++) a.push(Json(r.range(1, 3)));
-    if (isCurved(type)) for (int k = 0; k < d; k++) a.push(Json(r.range(0, 2)));
+    // curved corrections may be negative (estimateAnisotropicCoefficients() returns such weights): the set is then not provably lower and the general selection algorithm runs
+    if (isCurved(type)) { bool neg = r.chance(0.35); for (int k = 0; k < d; k++) a.push(Json(neg ? r.range(-3, 1) : r.range(0, 2))); }
     return a;
 }
 
